@@ -252,6 +252,9 @@ BOUNDARY = [
      dict(op='set', i=1, tok=7), dict(op='flush'), dict(op='set', i=2, tok=8), dict(op='pickle'), dict(op='set', i=3, tok=9)],
     [dict(op='set', i=0, tok=1), dict(op='close'), dict(op='close'), dict(op='pickle'), dict(op='set', i=1, tok=3)],
     [dict(op='flush'), dict(op='clear'), dict(op='reopen'), dict(op='set', i=0, tok=1), dict(op='pickle'), dict(op='del', i=0)],
+    # long stores: reopen / pickle round trips with 5-6 batches
+    [dict(op='set', i=k, tok=k + 1) for k in range(5)] + [dict(op='reopen'), dict(op='set', i=5, tok=6), dict(op='pickle'), dict(op='reopen')],
+    [dict(op='set', i=k, tok=k + 1) for k in range(6)] + [dict(op='flush'), dict(op='reopen'), dict(op='del', i=5), dict(op='reopen')],
 ]
 
 
